@@ -195,6 +195,19 @@ class C19(Check):
                 res["slow"] = {"frame": bytes(ssg.current_data), "reads": [int(sdev.__dict__.get(f"r{j}", 0)) for j, s in enumerate(case["stmts"]) if s[0] == "rd"]}
             except Exception as e:      # noqa
                 res["slow"] = Err(5, f"slow path raised {type(e).__name__}: {e}")
+            # ---- the next cycle: the group's frame buffer is a NEW object (as after every received frame of a fast group or a restart)
+            frame2 = bytearray(frame)
+            for ti, sm, base, n in regions:
+                for q in range(base, base + n):
+                    frame2[q] = rnd.choice([0, 0xff, rnd.randrange(256)])
+            res["frame2"] = bytes(frame2)
+            if not isinstance(res["slow"], Err):
+                ssg.current_data = bytearray(frame2)
+                try:
+                    sdev.update()
+                    res["slow2"] = {"frame": bytes(ssg.current_data), "reads": [int(sdev.__dict__.get(f"r{j}", 0)) for j, s in enumerate(case["stmts"]) if s[0] == "rd"]}
+                except Exception as e:      # noqa
+                    res["slow2"] = Err(5, f"slow path, second frame, raised {type(e).__name__}: {e}")
             await rig.shutdown()
         asyncio.run(go())
         return res
@@ -246,7 +259,9 @@ class C19(Check):
                 v = case["vars"][s[1]]
                 fmt = "I" if isinstance(v["size"], int) else ("q" if v["size"].islower() else "Q")
                 reads.append(struct.unpack_from("<" + fmt, m, b["fvars"][f"r{j}"])[0])
-        o = {"fast": {"frame": pkt, "reads": reads}, "slow": b["slow"], "same_layout": b["slow_same_layout"]}
+        if isinstance(b.get("slow2"), Err):
+            return b["slow2"]
+        o = {"fast": {"frame": pkt, "reads": reads}, "slow": b["slow"], "slow2": b.get("slow2"), "same_layout": b["slow_same_layout"]}
         case["_o"] = o
         return o
 
@@ -322,6 +337,13 @@ class C19(Check):
             return f"slow path: frame differs from own-bytes-only expectation: got {o['slow']['frame'].hex()} want {sf.hex()} from {b['frame'].hex()}; {what}"
         if o["slow"]["reads"] != sr:
             return f"slow path: read {o['slow']['reads']}, the frame holds {sr}; {what}"
+        if o.get("slow2") is not None:
+            sf2, sr2 = self.expected(case, b["frame2"])
+            if o["slow2"]["frame"] != sf2:
+                return (f"slow path, next cycle with a new frame buffer: frame differs from own-bytes-only expectation: got {o['slow2']['frame'].hex()} want {sf2.hex()} "
+                        f"from {b['frame2'].hex()}; {what}")
+            if o["slow2"]["reads"] != sr2:
+                return f"slow path, next cycle with a new frame buffer: read {o['slow2']['reads']}, the frame holds {sr2}; {what}"
         if o["fast"]["frame"] != ff:
             return f"fast path: frame differs from own-bytes-only expectation: got {o['fast']['frame'].hex()} want {ff.hex()} from {b['frame'].hex()}; {what}"
         if o["fast"]["reads"] != fr:
@@ -337,7 +359,7 @@ class C19(Check):
     def rule(self):
         return ("1-2 terminals (2-12 input / output bytes, FMMU or direct), 1-5 process variables (40% single bits 0..7, else B H I Q b h i q at the start, the end "
                 "or a random position; 25% inside a Struct with a position offset), a device linking all of them, 1-6 statements (reads into DeviceVars, writes of "
-                "constants or DeviceVar values, truthy values 2 / 256 for bits), frame regions filled with 0 / 0xff / random bytes")
+                "constants or DeviceVar values, truthy values 2 / 256 for bits), frame regions filled with 0 / 0xff / random bytes; the slow path runs a second cycle on a NEW frame buffer with different contents")
 
     def distribution(self, cases, observed):
         d = {"bit_vars": 0, "byte_vars": 0, "struct_vars": 0, "reads": 0, "writes": 0, "build_errors": 0}
